@@ -537,6 +537,15 @@ class History:
             eid = self.rng.choice([e for e in self.ents if -2 ** 31 <= e < 2 ** 31] + [unk]) if self.rng.random() < 0.6 else unk
             head = struct.pack('<ihii', eid, et, 3, 4) + bytes(24) + (struct.pack('<i', 0) if self.dialect in ('wot', 'wowp') else b'')
             self.emit('EntityCreate', head + binstream(b'\x00'), 'fault-entity-type'); return
+        if r < 0.2 and self.rng.random() < 0.5 and self.ents:
+            # a packet for a KNOWN entity, then a run of packets for one and the same unknown id: each of them fails on its own, none may land on the
+            # entity that was addressed last
+            self.update_prop()
+            for _ in range(self.rng.randrange(2, 4)):
+                if self.rng.random() < 0.5: self.emit('EntityProperty', struct.pack('<II', unk, 0) + binstream(bytes([self.rng.randrange(256)]) * 4), 'fault-unknown-entity')
+                elif 'Position' in self.ids: self.emit('Position', struct.pack('<ii', unk, 0) + bytes(self.rng.randrange(256) for _ in range(36)) + b'\x00', 'fault-unknown-entity')
+                else: self.emit('EntityMethod', struct.pack('<II', unk, 0) + binstream(b''), 'fault-unknown-entity')
+            return
         if r < 0.2: self.emit('EntityProperty', struct.pack('<II', unk, 0) + binstream(b'\x00'), 'fault-unknown-entity')
         elif r < 0.35: self.emit('EntityMethod', struct.pack('<II', unk, 0) + binstream(b''), 'fault-unknown-entity')
         elif r < 0.5 and self.ents:
